@@ -153,7 +153,7 @@ def ready(ctx, facts):
         return ctx.missing("GUARD-ready", "pending_count comparison / Ready::Yes / Ready::No in is_ready_for_validation")
     sw, e, ed = eqs[0]
     other = e[3] if "pending_count" in flow.field_names_in(e[2]) else e[2]
-    is_min = other[0] == "call" and other[1] == "std::cmp::min"
+    is_min = other[0] == "call" and re.search(r"(cmp::min|Ord::min)$", other[1]) is not None
     shape = False
     if is_min:
         a0, a1 = other[2]
@@ -225,7 +225,7 @@ def ready_via_helper(ctx, facts, b, dom, eqs, no, helper_sites):
     sw, e, ed = eqs[0]
     other = e[3] if "pending_count" in flow.field_names_in(e[2]) else e[2]
     shape = False
-    if other[0] == "call" and other[1] == "std::cmp::min":
+    if other[0] == "call" and re.search(r"(cmp::min|Ord::min)$", other[1]):
         a0, a1 = other[2]
         names = flow.field_names_in(a0) | flow.field_names_in(a1)
         rem = a1 if "records_per_batch" in flow.field_names_in(a0) else a0
@@ -593,7 +593,7 @@ def index_arith(ctx, facts):
         return ctx.missing("INDEX-arith", "Batcher::is_ready_for_validation / batch_offset")
     ctx.count(bodies=2)
     inl = lambda e: flow.inline_calls(facts, e, only=r"Batcher::<'a, B>::batch_offset$")
-    mins = flow.find_calls(b, re.compile(r"cmp::min$"))
+    mins = flow.find_calls(b, re.compile(r"(cmp::min|Ord::min)$"))
     gb = flow.find_calls(b, re.compile(r"get_batch_by_offset$"))
     rs = flow.find_calls(b, re.compile(r"BitVec<T, O>>::resize$"))
     if len(mins) != 1 or not gb or not rs:
